@@ -326,6 +326,23 @@ class TTGen:
             left = bin_('+', I(r.choice((1, 2))), I(r.choice((1, 2))))
             right = call('o1', self.int_expr(0))
         e = ('spec', left, right)
+        c2 = r.random()
+        if c2 < 0.3:
+            # the value of ?? wanted in another register than the usual one: as the left / right operand
+            # of arithmetic or a comparison, as a returned value, as an array length
+            k = r.randrange(5)
+            if k == 0:
+                return [write(bin_(r.choice('+-*'), e, I(r.randrange(1, 4)))), write(C(' ')), write(V('g0')), write(C(' '))]
+            if k == 1:
+                return [write(bin_(r.choice('+-'), self.int_expr(0), e)), write(C(' ')), write(V('g0')), write(C(' '))]
+            if k == 2:
+                return [if_(bin_(r.choice(('>', '==', '<=')), e, self.int_expr(0)), block(self.marker()), block(write(C('~')))),
+                        write(V('g0')), write(C(' '))]
+            if k == 3:
+                return [write(call('@sp', left[2][0] if left[0] == 'call' and left[1] == 'o1' else self.int_expr(0), right)),
+                        write(C(' ')), write(V('g0')), write(C(' '))]
+            n = self.name('t')
+            return [dyn('int', n, bin_('+', bin_('%', e, I(3)), I(1))), write(ln(n)), write(C(' ')), write(V('g0')), write(C(' '))]
         if self.arrs and r.random() < 0.3:
             a, ln_ = r.choice(self.arrs)
             tgt = idx(a, I(r.randrange(ln_)))
@@ -454,6 +471,7 @@ class TTGen:
             func('int', 'o3', [('int', 'a')],
                  ret(bin_('+', bin_('/', V('a'), I(2)), bin_('%', bin_('*', V('a'), I(3)), I(5))))),
             dump_func('int'), dump_func('bool'),
+            func('int', '@sp', [('int', 'a'), ('int', 'b')], ret(('spec', call('o1', V('a')), V('b')))),
         ]
         if self.feat('canary'):
             std.append(func('empty', '!canary', [], ex(call('!is_defeat'))))
